@@ -36,7 +36,10 @@ ASSUMPTIONS = ["the fresh emulator is constructed like the original (same ROM im
 
 HANDLER = ROM_BASE + 0x100
 SUB = ROM_BASE + 0x80
-SLEEPS = {"nop": bytes([0x00]), "halt": bytes([0xDE]), "off": bytes([0xDF]), "wait": bytes([0x0B, 0x03, 0x00, 0xEF])}
+SLEEPS = {"nop": bytes([0x00]), "halt": bytes([0xDE]), "off": bytes([0xDF]), "wait": bytes([0x0B, 0x03, 0x00, 0xEF]),
+          # a software interrupt in every round of the loop: the same handler is entered by IR and by hardware delivery, and
+          # (body "reenable") hardware interrupts nest inside the IR handler - snapshot points inside both
+          "swi": bytes([0xFE])}
 BODIES = {
     "empty": b"",
     "clear_isr": bytes([0x32, 0x71, 0xFC, 0xF0]),
@@ -391,6 +394,8 @@ def cross_compare(res, direction, ref, got, case):
 def plan(tier, seed):
     n = 16 if tier == "quick" else 64
     specs = [{"kind": "runs", "part": i, "parts": n, "seed": seed, "tier": tier, "idx": i} for i in range(n)]
+    for i in range(3):
+        specs.append({"kind": "directed", "part": i, "parts": 3, "seed": seed, "tier": tier, "idx": 900 + i})
     for i in range(1 if tier == "quick" else 4):
         specs.append({"kind": "valgrind", "part": i, "parts": n, "seed": seed, "tier": tier, "idx": n + i})
     return specs
@@ -433,7 +438,19 @@ def run_shard(spec) -> Result:
         if spec["kind"] == "valgrind":
             run_valgrind(res, r, tier, workdir)
             return res
-        runs = [make_run(r, tier) for _ in range(total)]
+        if spec["kind"] == "directed":
+            # software interrupts: every round of the loop executes IR; with a status bit pending but masked (imr0 0x84:
+            # only KEY enabled, main timer running) and with the ON key held while the IR handler re-enables interrupts
+            # (hardware delivery nested inside the software interrupt) - every step is a snapshot point
+            cfgs = [(imr0, body) for imr0 in (0x84, 0x8F, 0x88) for body in ("empty", "reenable", "clear_isr")]
+            runs = []
+            for j, (imr0, body) in enumerate(cfgs):
+                if j % spec["parts"] != spec["part"]:
+                    continue
+                scen = scenario("swi", body, imr0, {"enabled": True, "mti": 3, "sti": 0})
+                runs.append((scen, 34 if tier == "quick" else 60, {6: ("on", 1)} if body == "reenable" else {}))
+        else:
+            runs = [make_run(r, tier) for _ in range(total)]
         for lo in range(0, len(runs), 4):
             run_batch(res, runs[lo:lo + 4], tier, workdir, every_cross=3)
             for f in os.listdir(workdir):
